@@ -124,7 +124,8 @@ def case_multi(case):
         for i, s in enumerate(scales):
             vals[f"sc.{i+1}"] = s
             irf["scale"].append(f"sc.{i+1}")
-    labels, M, _, _ = B.calc_matrix(irf_model(irf), vals, "d1", [1.0, 2.0], TIMES)
+    # primed by the sibling with the normalisation flag flipped (same process, same shapes)
+    labels, M, _, _ = B.calc_matrix(irf_model(irf), vals, "d1", [1.0, 2.0], TIMES, prime=[(irf_model(dict(irf, normalize=not normalize)), vals)])
     n = max(len(centers), len(widths))
     cs = centers if len(centers) == n else centers * n
     ws = widths if len(widths) == n else widths * n
@@ -188,7 +189,8 @@ def case_index(case):
             vals[f"sh.{i+1}"] = s
             irf["shift"].append(f"sh.{i+1}")
     kind = case.get("kind", "parallel")
-    labels, M, mc, ds = B.calc_matrix(irf_model(irf, kind=kind), vals, "d1", axis, TIMES)
+    labels, M, mc, ds = B.calc_matrix(irf_model(irf, kind=kind), vals, "d1", axis, TIMES,
+                                      prime=[(irf_model(dict(irf, normalize=not case["normalize"]), kind=kind), vals)])  # fmt: skip
     vs = []
     index_dependent = case["shifts"] is not None or bool(disp)
     # history: the filled dataset model that has been evaluated once is evaluated again on another axis of the same
